@@ -643,6 +643,7 @@ type walker struct {
 	params      map[types.Object]int
 	fresh       freshSet // access paths known to hold a private (deep) copy at this point
 	pendingArgs []argFact
+	asserted    map[types.Object]*types.Named // interface-typed variables the function type-asserts to an API type
 	hints       map[ast.Node]string // how the parent uses the value of an expression: len | range | index | alias
 	curKind     string
 	local       map[string]argFact // what a local variable was last assigned from (parameter-rooted, shared)
@@ -728,6 +729,22 @@ func (a *analyzer) analyse(n *node) {
 			}
 		}
 	}
+	w.asserted = map[types.Object]*types.Named{}
+	ast.Inspect(n.body, func(x ast.Node) bool {
+		if _, ok := x.(*ast.FuncLit); ok {
+			return false
+		}
+		if ta, ok := x.(*ast.TypeAssertExpr); ok && ta.Type != nil {
+			if id, ok := ta.X.(*ast.Ident); ok {
+				if nt := apiNamed(n.pkg.TypesInfo.TypeOf(ta.Type)); nt != nil {
+					if o := n.pkg.TypesInfo.Uses[id]; o != nil {
+						w.asserted[o] = nt
+					}
+				}
+			}
+		}
+		return true
+	})
 	L := lockset{}
 	w.block(n.body.List, &L)
 	w.noteExit(L)
@@ -1891,7 +1908,14 @@ func (w *walker) wholeReads(call *ast.CallExpr, L *lockset) {
 		return
 	}
 	for _, a := range call.Args {
-		if nt := apiNamed(w.p.TypesInfo.TypeOf(a)); nt != nil {
+		nt := apiNamed(w.p.TypesInfo.TypeOf(a))
+		if nt == nil {
+			// reflect.DeepEqual(old, cur) on interface{} values the function itself asserts to be API objects
+			if id, ok := a.(*ast.Ident); ok {
+				nt = w.asserted[w.p.TypesInfo.Uses[id]]
+			}
+		}
+		if nt != nil {
 			w.a.reach(nt)
 			w.emitAccess("object*:"+typeKey(nt), false, a.Pos(), *L)
 		}
